@@ -20,7 +20,7 @@ def streams(ctx, drv, n_random, single_ops):
             cmds = [filt.gen_command(rng, db, ops=single_ops)]
             stream = "single-command"
         else:
-            cmds = [filt.gen_command(rng, db) for _ in range(rng.randint(0, 5))]
+            cmds = filt.gen_pipeline(rng, db, rng.randint(0, 5))
             stream = "pipeline"
         steps = i % 5 == 0
         eq, impl, model = filt.compare(db, cmds, drv, steps=steps)
@@ -63,6 +63,14 @@ def import_quantifier_stream(ctx, drv, n):
                 crits.append(filt.gen_criterion(rng, db, "exclude", triple_p=1.0, bad_ok=False))
         prefix = [filt.gen_command(rng, db, odd=False, bad_ok=False)] if rng.random() < 0.3 else []
         cmds = prefix + [{"operation": op, "data": crits}]
+        taxon_crits = [c for c in crits if isinstance(c, str) and not c.endswith(".py")]
+        if taxon_crits and rng.random() < 0.6:
+            # the filter goes on with a command resolving to the same taxa: a criterion denotes the same programs whatever
+            # an earlier `exclude` (which follows the importers) computed for it (seeded change C04-e: memo altered in place)
+            again = rng.choice(taxon_crits)
+            op2 = rng.choice(["include", "include", "include all", "exclude all", "impart"])
+            data2 = [again] + ([rng.choice(taxon_crits)] if op2.endswith("all") and rng.random() < 0.5 else [])
+            cmds.append({"operation": op2, "data": data2})
         eq, impl, model = filt.compare(db, cmds, drv)
         ctx.count("import chains × all-quantifier", repr((sorted(db["programs"]), db["importations"], cmds)),
                   nontrivial=filt.nontrivial(impl, db))
